@@ -18,6 +18,7 @@ type name2Value struct {
 	objName    string
 	fieldName  string
 	cusMsg     string
+	owner      string // 所属对象(如: 切片里的第几个元素), 不同对象里相同标识的 either/botheq 分开验证
 	reflectVal reflect.Value
 }
 
@@ -58,10 +59,11 @@ func (v *validCommon) initValid2FieldsMap(data *name2Value) {
 	if v.valid2FieldsMap == nil {
 		v.valid2FieldsMap = make(map[string][]*name2Value, 5)
 	}
-	if _, ok := v.valid2FieldsMap[data.validName]; !ok {
-		v.valid2FieldsMap[data.validName] = make([]*name2Value, 0, 2)
+	groupKey := data.owner + "\x00" + data.validName // 同一个对象里相同的标识才为一组
+	if _, ok := v.valid2FieldsMap[groupKey]; !ok {
+		v.valid2FieldsMap[groupKey] = make([]*name2Value, 0, 2)
 	}
-	v.valid2FieldsMap[data.validName] = append(v.valid2FieldsMap[data.validName], data)
+	v.valid2FieldsMap[groupKey] = append(v.valid2FieldsMap[groupKey], data)
 }
 
 // either 判断两者不能都为空
@@ -141,8 +143,8 @@ func (v *validCommon) valid(errBuf *strings.Builder) {
 		return
 	}
 
-	for validName, fieldInfos := range v.valid2FieldsMap {
-		validKey, _, _ := ParseValidNameKV(validName)
+	for _, fieldInfos := range v.valid2FieldsMap {
+		validKey, _, _ := ParseValidNameKV(fieldInfos[0].validName)
 		switch validKey {
 		case Either:
 			v.either(errBuf, fieldInfos)
